@@ -377,24 +377,27 @@ Section WildDisc.
     let t := fk_run cfg s h in
     length t = length h /\ Forall (fun x => snd x = ROk) t /\
     disc_ok t /\
-    (lib_mono_b cfg s h = true -> c01_refeed_b seen h t = true).
+    (lib_mono_b cfg s h = true -> c01_refeed_b seen h t = true) /\
+    ((forall x, In x U -> first < bnum x) -> lib_mono_b cfg s h = true).
   Proof.
     induction h as [|b h IH]; intros s seen HP Hh Hseen.
     - cbn. repeat split; auto. exists []. reflexivity.
     - assert (Hb : In b U) by (apply Hh; left; reflexivity).
       assert (Hh' : forall x, In x h -> In x U) by (intros x Hx; apply Hh; right; exact Hx).
+      assert (Hl0 : rn (libref (db s)) = 0) by (rewrite (pre_lib U cfg s HP); reflexivity).
       cbn [fk_run lib_mono_b].
       destruct (pre_step s b HP Hb) as [(s' & Hstep & HP' & Hsame & Hkeys & Hkb)|(Hnk & Hdisc)].
       + (* nothing delivered *)
         rewrite Hstep.
         assert (Hseen' : PSeen s' (b :: seen)).
         { intros x [<-|Hx]; [split; assumption|]. destruct (Hseen x Hx) as [HxU Hkx]. split; [exact HxU | apply Hkeys; exact Hkx]. }
-        destruct (IH s' (b :: seen) HP' Hh' Hseen') as (Hlen & Hok & Hd & Hre).
+        destruct (IH s' (b :: seen) HP' Hh' Hseen') as (Hlen & Hok & Hd & Hre & Hmn).
         cbn zeta in *. split; [cbn [length]; rewrite Hlen; reflexivity|].
         split; [constructor; [reflexivity | exact Hok]|].
-        split; [exact Hd|].
-        intros Hm. apply andb_true_iff in Hm as [_ Hm].
-        cbn [c01_refeed_b]. rewrite (Hre Hm). destruct (existsb (block_eqb b) seen); reflexivity.
+        split; [exact Hd|]. split.
+        * intros Hm. apply andb_true_iff in Hm as [_ Hm].
+          cbn [c01_refeed_b]. rewrite (Hre Hm). destruct (existsb (block_eqb b) seen); reflexivity.
+        * intros Hfirst. rewrite (Hmn Hfirst), andb_true_r, Hl0. apply N.leb_le. lia.
       + (* the LIB is discovered *)
         destruct Hdisc as (s' & evs & r & Fin & S' & Hstep & Hr & Happ & HI' & Hfirst & Hkn).
         rewrite Hstep.
@@ -403,12 +406,12 @@ Section WildDisc.
           - split; [exact Hb|]. apply (Hkn b Hb). apply in_or_app. right. left. reflexivity.
           - destruct (Hseen x Hx) as [HxU Hkx]. split; [exact HxU|]. apply (Hkn x HxU). apply in_or_app. left. exact Hkx. }
         destruct (WildLibInv.run_wild U r cfg Hnofail Hnew Hundo U_id U_uniq U_up Hr
-                    h s' Fin S' (b :: seen) HI' Hh' Hseen') as (Hlen & Hok & (S2 & Happ2) & Hre & Hfl).
+                    h s' Fin S' (b :: seen) HI' Hh' Hseen') as (Hlen & Hok & (S2 & Happ2) & Hre & Hfl & Hmn).
         cbn zeta in *. split; [cbn [length]; rewrite Hlen; reflexivity|].
         split; [constructor; [reflexivity | exact Hok]|].
         assert (Hall : all_events ((evs, ROk) :: fk_run cfg s' h) = evs ++ all_events (fk_run cfg s' h)).
         { unfold all_events. cbn [map concat fst]. reflexivity. }
-        split.
+        split; [|split].
         * unfold disc_ok, root_lib. rewrite Hall.
           destruct evs as [|e0 rest].
           -- cbn [app]. unfold WildLibInv.first_lib in Hfl. specialize (Hfl Hfirst).
@@ -424,6 +427,7 @@ Section WildDisc.
           destruct (existsb (block_eqb b) seen) eqn:Hex; [|reflexivity].
           apply existsb_exists in Hex as (x & Hx & Heq). apply block_eqb_eq in Heq. subst x.
           destruct (Hseen b Hx) as [_ Hkb]. contradiction.
+        * intros Hab. rewrite (Hmn Hab), andb_true_r, Hl0. apply N.leb_le. lia.
   Qed.
 
   Theorem wild_disc_run h : (forall b, In b h -> In b U) ->
@@ -432,9 +436,10 @@ Section WildDisc.
     disc_ok t /\
     c01_discipline_b LNone t = true /\
     c01_error_b (c_fail_at cfg) 0 t = true /\
-    (lib_mono_b cfg (fs_init LNone) h = true -> c01_refeed_b [] h t = true).
+    (lib_mono_b cfg (fs_init LNone) h = true -> c01_refeed_b [] h t = true) /\
+    ((forall x, In x U -> first < bnum x) -> lib_mono_b cfg (fs_init LNone) h = true).
   Proof.
-    intros Hh. destruct (run_pre h (fs_init LNone) [] (pre_init U cfg) Hh) as (Hlen & Hok & Hd & Hre).
+    intros Hh. destruct (run_pre h (fs_init LNone) [] (pre_init U cfg) Hh) as (Hlen & Hok & Hd & Hre & Hmn).
     { intros x []. }
     cbn zeta. repeat split; try assumption.
     - unfold c01_discipline_b. destruct Hd as [S' ->]. reflexivity.
